@@ -14,7 +14,7 @@
    finds the scenario of DESIGN §6/F4 again (seeded/revert-F4). *)
 From Coq Require Import List Arith NArith Bool.
 Import ListNotations.
-Require Import Aiuti.Batcher Aiuti.BatcherLimits Aiuti.BatcherTime Aiuti.BatcherInv Aiuti.BatcherProps.
+Require Import Aiuti.Case_Batcher Aiuti.BatcherSim Aiuti.Case_Batcher_C04 Aiuti.Case_C09 Aiuti.Batcher Aiuti.BatcherLimits Aiuti.BatcherTime Aiuti.BatcherInv Aiuti.BatcherProps.
 
 (* Every completion in the trace is either the Cancelled of a caller that a Cancel
    event of the list names, or exactly the outcome the batch function produced for
@@ -84,6 +84,18 @@ Theorem keeps_serving :
    (length (running s2) = c_conc c /\ exists w, In w (waiting s2) /\ In it w)).
 Proof. exact keeps_serving_lemma. Qed.
 Print Assumptions keeps_serving.
+
+(* COMPLETENESS of the monitor of the C09 check (Case_C09.ok = ok_C04 && ok_C11, evaluated on
+   scripts with Cancel events) on event lists without Chain events, batch_timeout > 0: it
+   accepts the canonical trace of the model for every configuration and every such event list
+   — in particular with arbitrary cancellations.  So a rejection by the C09 check is always a
+   real difference between the implementation's trace and the model's. *)
+Theorem monitor_complete_nochain :
+  forall c evs, cfg_ok c -> (0 < c_bt c)%N -> Forall ev_ok evs ->
+  forallb (fun e => negb (is_chain e)) evs = true ->
+  Case_C09.ok (BCase c evs (map canon (fst (run c evs))) (waiting_callers (snd (run c evs)))) = true.
+Proof. exact ok_C09_complete. Qed.
+Print Assumptions monitor_complete_nochain.
 
 (* ---- non-vacuity --------------------------------------------------------------------- *)
 
